@@ -128,8 +128,11 @@ def r_gate(ctx):
                 rec = len_of_param(f, d.get('received', ('unknown',)))
                 good = exp_ok and rec is not None and rec[1] == va[1]
                 detail = 'expected=%s received=%s' % (show(d.get('expected', ('unknown', ''))), show(d.get('received', ('unknown', ''))))
-        okgoal = [b for b, k, t in paths.ret_assigns(f) if k in ('ok', 'call')]
+        okgoal = [b for b, k, t in paths.ret_assigns(f) if k in ('ok', 'call', 'other')]
         good = good and not any(x in f.reachable(fail) for x in okgoal)
+        byp = [b for b in okgoal if not f.dominates(eq, b)]
+        ctx.check(not byp, rule, path + '/no-success-bypass', f.loc(), 'every success return is dominated by the length gate',
+                  '`%s` can return success without having compared vector.len() with the declared dimension (return at line %s)' % (path, [paths.block_line(f, b) for b in byp]))
         ctx.check(good, rule, path + '/error', f.loc(), 'failing edge returns InvalidVecDimension{%s}' % detail,
                   '`%s`: the wrong-length path does not return InvalidVecDimension{expected: dimensions, received: vector.len()} (%s)' % (path, detail))
     # Reader::dimensions is the stored dimension
